@@ -740,7 +740,26 @@ pub fn s_valid_core(p: &Pos) -> bool {
     if s_in_check(p, 1 - p.stm) {
         return false;
     }
-    s_ep_consistent(p)
+    s_ep_consistent(p) && s_ep_history_ok(p)
+}
+
+/// "en-passant state only directly after a double pawn push" from a valid position: with the pushed pawn put
+/// back on its starting square, the king of the side now to move was not attacked (it was the pusher's turn).
+pub fn s_ep_history_ok(p: &Pos) -> bool {
+    match p.ep {
+        None => true,
+        Some(ep) => {
+            if ep > 63 || (ep < 16 && p.stm == BLACK) || (ep >= 48 && p.stm == WHITE) {
+                return false;
+            }
+            let them = 1 - p.stm;
+            let start = if them == WHITE { ep.wrapping_sub(16) } else { ep.wrapping_add(16) };
+            let mut pre = *p;
+            pre.pieces[PAWN] = (p.pieces[PAWN] & !bit(ep)) | bit(start);
+            pre.colors[them] = (p.colors[them] & !bit(ep)) | bit(start);
+            !s_attacked(&pre, pre.king_sq(p.stm), them, pre.occ())
+        }
+    }
 }
 
 /// en-passant state only directly after a double pawn push: the recorded pawn is an enemy pawn
@@ -828,4 +847,71 @@ pub fn s_sane(p: &Pos, combined: u64) -> bool {
         c += 1;
     }
     true
+}
+
+
+// ---------------------------------------------------------------- pin-aware legality (the shortcut the library takes)
+
+/// destination set of the man on `src` by the movement rules alone (captures of own men excluded), loop-free
+pub fn s_pseudo_set(p: &Pos, src: u8) -> u64 {
+    let me = p.stm;
+    let occ = p.occ();
+    let own = p.colors[me];
+    let r = match p.piece_at(src) {
+        Some(PAWN) => (s_pawn_att(src, me) & p.colors[1 - me]) | s_pawn_quiets(src, me, occ),
+        Some(KNIGHT) => s_knight(src),
+        Some(BISHOP) => s_bishop_moves_lf(src, occ),
+        Some(ROOK) => s_rook_moves_lf(src, occ),
+        Some(QUEEN) => s_bishop_moves_lf(src, occ) | s_rook_moves_lf(src, occ),
+        Some(KING) => s_king(src),
+        _ => 0,
+    };
+    r & !own
+}
+
+/// legal destinations of a non-king man, computed the way the rules can be short-cut with check and pin
+/// information: double check -> none; single check -> capture the checker or interpose; pinned -> stay on the
+/// line through the king (and not at all when in check).  En-passant captures are NOT included (see s_ep_legal).
+pub fn s_legal2_set(p: &Pos, src: u8, checkers: u64, pinned: u64) -> u64 {
+    let me = p.stm;
+    let k = p.king_sq(me);
+    let n = checkers.count_ones();
+    if n >= 2 || p.color_at(src) != Some(me) || p.piece_at(src) == Some(KING) {
+        return 0;
+    }
+    let ps = s_pseudo_set(p, src);
+    if pinned & bit(src) != 0 {
+        if n == 1 {
+            0
+        } else {
+            ps & s_line(src, k)
+        }
+    } else if n == 1 {
+        let c = checkers.trailing_zeros() as u8 & 63;
+        ps & (s_between(c, k) | checkers)
+    } else {
+        ps
+    }
+}
+
+/// legality of the en-passant capture src -> dst by definition: geometry + own king not attacked afterwards
+pub fn s_ep_legal(p: &Pos, src: u8, dst: u8) -> bool {
+    let m = Mv { src, dst, promo: None };
+    s_is_ep_capture(p, &m) && s_legal(p, &m)
+}
+
+/// is the single king step to `d` legal?  (destination not own, and not attacked once the king is lifted)
+pub fn s_king_step_legal(p: &Pos, d: u8) -> bool {
+    let me = p.stm;
+    let k = p.king_sq(me);
+    s_king(k) & !p.colors[me] & bit(d) != 0 && !s_attacked(p, d, 1 - me, (p.occ() & !bit(k)) | bit(d))
+}
+
+/// castling to the king side (true) / queen side (false) legal per Art. 3.8.2
+pub fn s_castle_legal(p: &Pos, kingside: bool) -> bool {
+    let me = p.stm;
+    let base = s_back_rank(me);
+    let dst = if kingside { base + 6 } else { base + 2 };
+    let m = Mv { src: base + 4, dst, promo: None };
+    p.king_sq(me) == base + 4 && s_pseudo(p, &m)
 }
